@@ -129,9 +129,35 @@ def check_string(s, cfg, tolerant, res, case):
     reads = 0
     while True:
         p0 = r.cur_pos()
+        # character-level peeks and the convenience peek do not move either
+        try:
+            r.peek_chars(2, ps)
+            r.peek_space_chars(ps)
+        except LatexWalkerEndOfStream:
+            pass
+        except Exception as e:
+            res.fail(exc_key(e), exc_detail(e), case)
+            return None
+        tn = '<raised>'
+        try:
+            tn = r.peek_token_or_none(ps)
+        except LatexWalkerTokenParseError:
+            pass
+        except Exception as e:
+            res.fail(exc_key(e), exc_detail(e), case)
+            return None
+        if r.cur_pos() != p0:
+            res.fail('c11:peek-moves:%s:char-level-or-peek_token_or_none' % mode,
+                     'peek_chars / peek_space_chars / peek_token_or_none moved the position '
+                     'from %d to %d' % (p0, r.cur_pos()), case)
+            return None
         try:
             t = r.peek_token(ps)
         except LatexWalkerEndOfStream as e:
+            if tn is not None:
+                res.fail('c11:peek_token_or_none-differs:%s' % mode,
+                         'peek_token raises end of stream, peek_token_or_none gave %r' % (tn,), case)
+                return None
             fs = getattr(e, 'final_space', '') or ''
             if recon + fs != s:
                 res.fail('c11:lossless:%s' % mode,
@@ -144,9 +170,33 @@ def check_string(s, cfg, tolerant, res, case):
                 res.fail('c11:token-error-escapes-tolerant', exc_detail(e), case)
                 return None
             res.label('strict-token-error')
+            # the failed peek did not move, and a read fails the same way at the same place
+            if r.cur_pos() != p0:
+                res.fail('c11:peek-moves:strict:on-error', 'position %d -> %d after a peek that '
+                         'raised' % (p0, r.cur_pos()), case)
+                return None
+            try:
+                r.next_token(ps)
+                res.fail('c11:peek-differs-from-next:strict:error', 'peek_token raised %s, '
+                         'next_token returned a token' % exc_detail(e), case)
+                return None
+            except LatexWalkerTokenParseError as e2:
+                if getattr(e2, 'pos', None) != getattr(e, 'pos', None):
+                    res.fail('c11:peek-differs-from-next:strict:error-pos', 'peek error at %r, '
+                             'next error at %r' % (getattr(e, 'pos', None),
+                                                   getattr(e2, 'pos', None)), case)
+                    return None
+            except Exception as e2:
+                res.fail(exc_key(e2), exc_detail(e2), case)
+                return None
             return kinds
         except Exception as e:
             res.fail(exc_key(e), exc_detail(e), case)
+            return None
+        if isinstance(tn, str) or tn is None or tokkey(tn) != tokkey(t):
+            res.fail('c11:peek_token_or_none-differs:%s' % mode, 'peek_token %r, '
+                     'peek_token_or_none %r' % (tokkey(t), tn if (tn is None or isinstance(tn, str))
+                                                else tokkey(tn)), case)
             return None
         if r.cur_pos() != p0:
             res.fail('c11:peek-moves:%s:%s' % (mode, t.tok),
@@ -195,6 +245,34 @@ def check_string(s, cfg, tolerant, res, case):
                      'first read %r (pos after %d), after move_to_token %r (pos after %d)'
                      % (tokkey(t2), p1, tokkey(t3), r.cur_pos()), case)
             return None
+        # going back to the token itself (not to the blanks before it), and past it without its
+        # trailing blanks
+        try:
+            r.move_to_token(t2, rewind_pre_space=False)
+            pa = r.cur_pos()
+            t4 = r.next_token(ps)
+            pb = r.cur_pos()
+            r.move_past_token(t2, fastforward_post_space=False)
+            pc = r.cur_pos()
+            r.move_past_token(t2)
+            pd = r.cur_pos()
+        except Exception as e:
+            res.fail('c11:rewind-raises:' + type(e).__name__, exc_detail(e), case)
+            return None
+        post = getattr(t2, 'post_space', '') or ''
+        if pa != t2.pos or tokkey(t4)[:4] + tokkey(t4)[5:] != tokkey(t2)[:4] + tokkey(t2)[5:] \
+                or t4.pre_space != '' or pb != p1:
+            res.fail('c11:rewind-differs:%s:%s:without-pre-space' % (mode, t2.tok),
+                     'token %r; move_to_token(rewind_pre_space=False) put the position at %d; '
+                     're-read %r, position after %d (first time %d)'
+                     % (tokkey(t2), pa, tokkey(t4), pb, p1), case)
+            return None
+        if pc != t2.pos_end - len(post) or pd != p1:
+            res.fail('c11:move_past_token:%s:%s' % (mode, t2.tok),
+                     'token %r: position after move_past_token(fastforward_post_space=False) = %d '
+                     '(expected %d), after move_past_token() = %d (expected %d)'
+                     % (tokkey(t2), pc, t2.pos_end - len(post), pd, p1), case)
+            return None
         kinds.append(t2.tok)
         if t2.tok in ('char', 'specials') and s[t2.pos:t2.pos_end].count('\n') >= 2:
             res.label('paragraph-token')
@@ -216,12 +294,26 @@ def read_all(s, cfg, tolerant, interfere):
         try:
             if interfere:
                 other = dict(cfg)
-                if other.get('in_math_mode'):
-                    other['in_math_mode'] = False
-                    other.pop('math_mode_delimiter', None)
+                which = len(out) % 6
+                if which == 0:
+                    if other.get('in_math_mode'):
+                        other['in_math_mode'] = False
+                        other.pop('math_mode_delimiter', None)
+                    else:
+                        other['in_math_mode'] = True
+                        other['math_mode_delimiter'] = '$'
+                elif which == 1:
+                    other['ctx'] = None if other.get('ctx', 'default') is not None else 'default'
+                elif which == 2:
+                    other['enable_specials'] = not other.get('enable_specials', True)
+                elif which == 3:
+                    other['latex_group_delimiters'] = [['[', ']']] \
+                        if other.get('latex_group_delimiters') != [['[', ']']] else [['{', '}']]
+                elif which == 4:
+                    other['enable_double_newline_paragraphs'] = \
+                        not other.get('enable_double_newline_paragraphs', True)
                 else:
-                    other['in_math_mode'] = True
-                    other['math_mode_delimiter'] = '$'
+                    other['enable_macros'] = not other.get('enable_macros', True)
                 try:
                     r.peek_token(parsing_state(s, other))
                 except (LatexWalkerEndOfStream, LatexWalkerTokenParseError):
@@ -257,8 +349,7 @@ def check_interference(s, cfg, res, case):
 
 
 def check_both(s, cfg, res, case, count=True):
-    if not cfg or (len(cfg) <= 2 and ('in_math_mode' in cfg or 'ctx' in cfg or 'enable_math' in cfg)):
-        check_interference(s, cfg, res, case)
+    check_interference(s, cfg, res, case)
     ks = None
     for tolerant in (False, True):
         k = check_string(s, cfg, tolerant, res, dict(case, tolerant=tolerant))
@@ -278,9 +369,22 @@ def run_shard(shard, res):
     if kind == 'soup':
         _, alpha, L, k, which, _ = shard
         use = cfgs if which is None else BASE_CONFIGS[:6]
+        import zlib
+        rotate = (tier == 'quick' and L >= 3 and which is None)
         for toks in soups.enum_tokens(ALPHAS[alpha], L, k, NSHARDS):
             s = ''.join(toks)
+            h = zlib.crc32(s.encode('utf-8'))
             for ci, cfg in enumerate(use):
+                # quick tier, longest strings: the six default / math configurations always, of
+                # the others a checksum-chosen third
+                if rotate and ci >= 6 and (ci + h) % 3:
+                    continue
+                toks2 = list(toks)
+                if 'macro_escape_char' in cfg or 'comment_start' in cfg:
+                    # the same string written with this configuration's escape / comment char
+                    toks2 = [t.replace('\\', cfg.get('macro_escape_char', '\\'))
+                             .replace('%', cfg.get('comment_start', '%')) for t in toks]
+                    check_both(''.join(toks2), cfg, res, {'tokens': toks2, 'cfg': cfg})
                 check_both(s, cfg, res, {'tokens': list(toks), 'cfg': cfg})
         res.exhaustive = True
     else:
